@@ -37,13 +37,19 @@ TRUSTED_EXTRA = ["gzip (BAM container) and the OS file layer"]
 MANIFEST = {
     "text": "Lean 4 refinement proof: the text extractor <data, field starts/lens, entry starts/ends, contiguous> refines 'a list of "
             "records' (raw bytes + relative field table): select_refines (every index form), concat_refines (n-ary), "
-            "compact_preserves, touch/bytes, program_bytes and program_fields by induction over selection/concatenation/"
-            "in-place-compaction programs; field text, VCF rest-of-line and SAM tags are functions of the abstract record; "
-            "build_delimited_records ties the construction from a raw chunk to the source lines (CRLF included), the shipped "
-            "record-end rule is refuted (buildOld_unsound). Correspondence: real bnp.open/read/index/concatenate/replace/write on "
-            "generated files of ten formats vs the Lean model vs the Lean spec vs a Python source-lines oracle.",
+            "compact_preserves, bytes_spec, program_abs/program_bytes/program_fields/program_replace by induction over selection/"
+            "concatenation/in-place-compaction programs; field text, VCF rest-of-line and SAM tags are functions of the abstract "
+            "record (field_text, rest_text, sam_extra_text); bam_records for the BAM extractor. The construction from a raw chunk "
+            "(from_raw_buffer/_get_buffer_extractor/_modify_for_carriage_return) is proved for ALL well-formed delimited tables "
+            "with LF, CRLF or mixed line ends (buildDelimited_eq, build_delimited_records, build_delimited_records_lf), giving the "
+            "end-to-end theorem passthrough_all_files: written bytes = the selected source lines, for every table and every "
+            "program; the same for the k-line formats FASTQ / two-line FASTA (buildKLine_eq, build_kline_records, passthrough_kline). "
+            "For the SAM / BAM constructions the invariant is validated per explored input by a checker proved sound (invB_sound); the shipped record-end rule is refuted (buildOld_unsound). "
+            "Correspondence: real bnp.open/read/index/concatenate/replace/write on generated files of ten formats vs the Lean "
+            "model vs the Lean spec vs a Python source-lines oracle.",
     "note": "NumPy indexing and npstructures ragged views are specified externals; GTF is read eagerly by design (not lazy), so its "
-            "non-canonical integers are re-formatted: recorded as a known finding; SAM with CRLF cannot be read at all (loud).",
+            "non-canonical integers are re-formatted: recorded as a known finding; concatenation of FASTQ / two-line FASTA tables is "
+            "eager (their buffers have no concatenate) and is checked implementation-vs-oracle at field level only.",
     "technique": "Lean 4 refinement proof (induction over programs) + differential correspondence with the implementation",
     "design": "§6 C04",
 }
